@@ -742,6 +742,14 @@ func (h *harness) step(step int, op Op, nInt *int) error {
 		if len(sent) != 1 || !bytes.Equal(sent[0], it.Wire.Join()) {
 			return fmt.Errorf("step %d: Express(%s) put %d packets on the face, want exactly the encoded Interest", step, op.N, len(sent))
 		}
+		// the configuration object belongs to the application, which goes on using it (for its next
+		// Interest, say): what the pending Interest asked for was settled when it was expressed
+		if it.Config != nil {
+			it.Config.CanBePrefix = !it.Config.CanBePrefix
+			it.Config.MustBeFresh = !it.Config.MustBeFresh
+			it.Config.Lifetime = nil
+			it.Config.Nonce = nil
+		}
 		if op.G != 0 {
 			h.cls["express-with-digest"] = true
 		}
